@@ -64,6 +64,7 @@ CONFIG = {
     "IPSecESP": cfg("tins/ipsec.h", "Tins::IPSecESP", [("header_", "ipsec_header#2")], files=["src/ipsec.cpp", "include/tins/ipsec.h"]),
     "DNS": cfg("tins/dns.h", "Tins::DNS", [("header_", "dns_header")], inner=False, files=["src/dns.cpp", "include/tins/dns.h"]),
     "BootP": cfg("tins/bootp.h", "Tins::BootP", [("bootp_", "bootp_header")], inner=False, files=["src/bootp.cpp", "include/tins/bootp.h"]),
+    "ICMPv6": cfg("tins/icmpv6.h", "Tins::ICMPv6", [("header_", "icmp6_header")], files=["src/icmpv6.cpp", "include/tins/icmpv6.h"]),
     "DHCPv6": cfg("tins/dhcpv6.h", "Tins::DHCPv6", [("header_data_", "@bytes")], inner=False, files=["src/dhcpv6.cpp", "include/tins/dhcpv6.h"]),
     "Dot11Data": cfg("tins/dot11/dot11_data.h", "Tins::Dot11Data", [("header_", "dot11_header"), ("ext_header_", "dot11_extended_header")],
                      files=["src/dot11/dot11_data.cpp", "include/tins/dot11/dot11_data.h", "src/dot11/dot11_base.cpp", "include/tins/dot11/dot11_base.h"],
